@@ -1093,3 +1093,99 @@ def deep_calls(F, calls):
             for bi, t in b.calls():
                 res |= set(call_names(t))
     return res
+
+
+# ----------------------------------------------------------------------------- msync coverage
+
+def _follow_moves(body, l, n=4):
+    """the single definition reached from local l through plain moves/copies and `.#0` of a checked-arithmetic pair"""
+    for _ in range(n):
+        ds = body.defs().get(l, [])
+        if len(ds) != 1:
+            return None
+        d = ds[0]
+        if d[2] == 'call':
+            return d
+        r = d[3]['r']
+        if r['k'] == 'use' and op_place(r['a'][0]) is not None:
+            pl = op_place(r['a'][0])
+            if len(pl) == 1 or (len(pl) == 2 and pl[1] == '.#0'):
+                l = pl[0]
+                continue
+        return d
+    return None
+
+
+def msync_tail_offset(body, bi):
+    """if the call in block bi msyncs a mapping up to its end, the offset it starts at (0 for MmapMut::flush);
+    None if it is not an msync or does not provably reach the end of the mapping (offset + length == map.len())."""
+    t = body.term(bi)
+    if call_matches(t, ['memmap2::MmapMut::flush', 'memmap2::MmapMut::flush_async']) and not call_matches(t, ['memmap2::MmapMut::flush_async']):
+        return 0
+    if not call_matches(t, ['memmap2::MmapMut::flush_range']) or len(t['a']) < 3:
+        return None
+    off = const_of(body, t['a'][1])
+    ll = op_local(t['a'][2])
+    if off is None or ll is None:
+        return None
+    d = _follow_moves(body, ll)
+    if d is None:
+        return None
+    def is_len(dd):
+        return dd is not None and dd[2] == 'call' and any(re.search(r'(slice::<impl \[T\]>|MmapMut|MmapRaw)::len$', n) for n in call_names(dd[3]))
+    if is_len(d):
+        return 0 if off == 0 else None
+    if d[2] == 'assign' and d[3]['r']['k'] == 'bin' and d[3]['r']['op'] in ('Sub', 'SubWithOverflow', 'SubUnchecked'):
+        a, b = d[3]['r']['a']
+        if const_of(body, b) == off and op_local(a) is not None and is_len(_follow_moves(body, op_local(a))):
+            return off
+    return None
+
+
+def msync_tail_sites(body, max_off=0):
+    """call blocks that msync a mapping to its end starting at an offset <= max_off, directly or through a crate helper all of
+    whose Ok paths do so (one fixed point over the crate)."""
+    F = body.facts
+    cache = F.__dict__.setdefault('_msync_cache', {})
+    if max_off not in cache:
+        S = set()
+        changed = True
+        while changed:
+            changed = False
+            for b in F.bodies.values():
+                if b.path in S or not b.return_blocks():
+                    continue
+                T = [bi for bi, t in b.calls() if bi in b.normal_blocks() and ((msync_tail_offset(b, bi) is not None and msync_tail_offset(b, bi) <= max_off) or any(n in S for n in call_names(t)))]
+                if T and ok_return_unreachable_avoiding(b, T) is None:
+                    S.add(b.path); changed = True
+        cache[max_off] = S
+    S = cache[max_off]
+    nb = body.normal_blocks()
+    return [bi for bi, t in body.calls() if bi in nb and ((msync_tail_offset(body, bi) is not None and msync_tail_offset(body, bi) <= max_off) or any(n in S for n in call_names(t)))]
+
+
+def msync_partial_sites(F):
+    """every msync in the crate that does not provably reach the end of its mapping: (path, loc)"""
+    res = []
+    for b in F.bodies.values():
+        for bi, t in b.calls():
+            if call_matches(t, ['memmap2::MmapMut::flush_range', 'memmap2::MmapMut::flush_async_range']) and msync_tail_offset(b, bi) is None:
+                res.append((b.path, b.loc(bi)))
+    return res
+
+
+def root_local(body, o, n=6):
+    """the local an operand is a plain copy / integer cast of (single definitions only)"""
+    l = op_local(o) if isinstance(o, dict) else o
+    if isinstance(o, dict) and (op_place(o) is None or len(op_place(o)) != 1):
+        return None
+    for _ in range(n):
+        ds = body.defs().get(l, [])
+        if len(ds) != 1 or ds[0][2] != 'assign':
+            return l
+        r = ds[0][3]['r']
+        if r['k'] in ('use', 'cast') and op_place(r['a'][0]) is not None and len(op_place(r['a'][0])) == 1:
+            l = op_place(r['a'][0])[0]
+            continue
+        return l
+    return l
